@@ -1,9 +1,24 @@
 #!/usr/bin/env python3
+# run with python3-vt (tooling venv has jsonschema)
 import json, sys, glob, jsonschema
-jsonschema.validate(json.load(open('/verif/MANIFEST.json')), json.load(open('/root/.vp/MANIFEST.schema.json')))
+m = json.load(open('/verif/MANIFEST.json'))
+jsonschema.validate(m, json.load(open('/root/.vp/MANIFEST.schema.json')))
 es = json.load(open('/root/.vp/EVIDENCE.schema.json'))
+cat = {c['property_id']: c['level_claimed']['category'] for c in m['checks']}
+bad = 0
 for f in sorted(glob.glob('/verif/evidence/*.json')):
     try:
-        jsonschema.validate(json.load(open(f)), es); print('ok', f)
-    except Exception as e:
-        print('INVALID', f, str(e)[:300])
+        e = json.load(open(f))
+        jsonschema.validate(e, es)
+        pid = e['property_id']
+        if pid in cat and cat[pid] != e['level']:
+            raise Exception(f"level {e['level']} != manifest category {cat[pid]}")
+        print('ok', f)
+    except Exception as ex:
+        bad += 1
+        print('INVALID', f, str(ex)[:300])
+claimed = set(cat); na = {n['property_id'] for n in m.get('not_applicable', [])}
+ids = {json.loads(l)['id'] for l in open('/verif/properties.jsonl')}
+if claimed | na != ids or claimed & na:
+    bad += 1; print('INVALID manifest: claimed + not_applicable must partition the property ids')
+sys.exit(1 if bad else 0)
